@@ -336,6 +336,8 @@ def check_export(rep, prog):
     rep.saw(fn=f)
     for s in Interp(prog, Scenario(inline=noinline)).run(f):
         its = s.ret.items if isinstance(s.ret, Bytes) else []
+        from rules import C14
+        its = C14.expand_generated(prog, f, s, its)       # an export loop over a generator of the program: the sequence it yields
         flat = []
 
         def walk(items):
@@ -350,7 +352,8 @@ def check_export(rep, prog):
         walk(its)
         srcs = sorted(set(expand_bound(s, it[1]) for it in flat if it[0] == 'SYM'))
         if not isinstance(s.ret, Bytes) or any(it[0] != 'SYM' for it in flat) or \
-                any(not re.match(r'^[\w.$\[\]*()]+\.__bytearray__\(\)$', x) for x in srcs):
+                any(not re.match(r'^[\w.$\[\]*()]+\.__bytearray__\(\)$', x) for x in srcs) or \
+                any('(' in re.sub(r'\.(values|items|keys)\(\)', '', x[:-len('.__bytearray__()')]) for x in srcs):      # elements of an opaque call
             raise AnalysisError('PGPKey.__bytearray__: export not understood as a sequence of serialised packets: %s' % render(s.ret)[:160])
         allowed = {t.replace('self', f.params[0], 1) for t in (
             'self._key.__bytearray__()', 'self._signatures[*].__bytearray__()', 'self._uids[*]._uid.__bytearray__()',
